@@ -22,10 +22,10 @@ def run_c11(tier, seed, replay):
     work = vlib.scratch_dir("C11")
     nsh = vlib.NCPU
     cases = 12000 if tier == "quick" else 1200000
-    res = vlib.run_resumable(binary, ["--seed", str(seed), "--cases", str(cases)], nsh, timeout=900 if tier == "quick" else 7200, work=work)
+    res = vlib.run_resumable(binary, ["--seed", str(seed), "--cases", str(cases)], nsh, timeout=300 if tier == "quick" else 7200, work=work)
     counters, distinct, samples, stats = vlib.collect_runs(v, res)
     abin = vlib.build_harness("promise", "asan")
-    res2 = vlib.run_resumable(abin, ["--seed", str(seed + 77), "--cases", str(max(50, cases // 20))], nsh, timeout=900 if tier == "quick" else 7200,
+    res2 = vlib.run_resumable(abin, ["--seed", str(seed + 77), "--cases", str(max(50, cases // 20))], nsh, timeout=300 if tier == "quick" else 7200,
                               work=work, env=vlib.SAN_ENV_EXPLORE, tag="a")
     c2, d2, s2, st2 = vlib.collect_runs(v, res2)
     distinct |= d2
